@@ -391,6 +391,8 @@ def value_expr(rng, env, prop, depth):
         return rng.choice([["num", rng.choice(["1.3e9", "2.998e9", "1e9", "1300000000"])], ["mul", gen_nonzero(rng, env), ["num", "1e8"]]])
     if prop == "order":
         return ["num", rng.choice(["1", "1.0"])]
+    if rng.random() < 0.12:
+        return ["num", rng.choice(["0", "0.0", "0e0"])]       # an exact zero that is GIVEN is not the same as an absent property
     return gen_expr(rng, env, depth)
 
 
